@@ -35,6 +35,13 @@ def operands(full_only=False):
 NPM_OPS = ["", "^", "~", ">=", ">", "<=", "<", "="]
 
 
+def around(spec):
+    """the versions around the first operand written in a spec (see near_versions); [] when it has none"""
+    import re
+    m = re.search(r"\d+(?:\.\d+){0,2}(?:-[0-9A-Za-z.-]+)?", spec)
+    return near_versions(m.group(0)) if m else []
+
+
 def near_versions(operand):
     """the versions around an operand (full or partial) at which a comparator built on it changes its verdict: the floor of
     what it denotes, its neighbours inside the same patch / minor / major line, the first versions of the next lines,
@@ -48,6 +55,7 @@ def near_versions(operand):
     M, m, p = comps
     out = [f"{M}.{m}.{p}", f"{M}.{m}.{p + 1}", f"{M}.{m}.{p + 7}", f"{M}.{m + 1}.0", f"{M}.{m + 3}.2", f"{M + 1}.0.0", f"{M + 1}.0.0-alpha",
            f"{M}.{m}.{p}-alpha", f"{M}.{m}.{p + 1}-alpha", f"{M}.{m + 1}.0-0"]
+    out += [f"{M}.{m}.{p}+b", f"{M}.{m}.{p}+1.5.1", f"{M}.{m}.{p + 1}+b"]       # the same versions published with build metadata
     if p > 0:
         out.append(f"{M}.{m}.{p - 1}")
     if m > 0:
